@@ -223,6 +223,7 @@ FOCUS_SNIPPETS = [
     'sub vcl_recv {\n  switch (req.url) {\n  case "a":\n    esi;\n    break;\n  case ~ "b":\n    fallthrough;\n  default:\n    break;\n  }\n}\n',
     'sub vcl_recv {\n  set var.p = 10%;\n  set req.http.X = "a" + 5% + "b";\n  log 1% "x";\n  if (var.p == 10%) {\n    esi;\n  }\n}\n',
     'sub vcl_recv {\n  switch (req.url) {\n  case "a" "b":\n    break;\n  case "c" + "d" req.http.E:\n    break;\n  default:\n    break;\n  }\n}\n',
+    'sub vcl_recv {\n  if (/* a */ req.http.A /* b */ && /* c */ req.http.B /* d */ || /* e */ req.http.D /* f */ && (req.http.E /* g */ || req.http.F) /* h */) {\n    esi;\n  }\n  if\n\n  /* i */ (req.http.A) {\n    esi;\n  }\n}\n',
     'sub b {\n}\nsub a {\n}\nsub vcl_log {\n}\nsub vcl_recv {\n}\nacl z {\n}\nacl y {\n}\nbackend q {\n}\ntable t {\n}\nimport x;\ninclude "i";\npenaltybox p {\n}\nratecounter r {\n}\ndirector d random {\n}\n',
 ]
 
